@@ -352,6 +352,15 @@ fn main_strategy() -> BoxedStrategy<Case> {
             if if_range_mode == 0 {
                 req = req.with("if-range", &etag.0);
             }
+            // One case in seven: the entity also supplies a header under a name the response itself
+            // carries (Accept-Ranges, Last-Modified - not among the names add_headers is told to
+            // leave out): it belongs into every part like any other entity header.
+            let mut headers = headers;
+            match other % 7 {
+                0 if headers.len() < 8 => headers.push(("accept-ranges".to_string(), Bs::s("bytes"))),
+                1 if headers.len() < 8 && other >= 7 => headers.push(("last-modified".to_string(), Bs::s("Sun, 06 Nov 1994 08:49:37 GMT"))),
+                _ => {}
+            }
             // Half of the cases carry another conditional header that is satisfied (or cannot
             // apply): the multipart answer, part headers included, must be the same.
             if if_range_mode <= 1 {
